@@ -560,7 +560,12 @@ fn handle_a2ml(
                     if bytepos > datalen {
                         bytepos = datalen;
                     }
-                } else if filebytes[bytepos..].starts_with(b"/end") {
+                } else if filebytes[bytepos..].starts_with(b"/end")
+                    && !filebytes
+                        .get(bytepos + 4)
+                        .is_some_and(|c| is_identchar(*c))
+                {
+                    // "/end" as a word of its own, not the beginning of e.g. "/endian.aml" in an include path
                     done = true;
                 } else if bytepos < datalen {
                     // solitary '/' hanging around? this will definitely be a parse error later on
